@@ -9,11 +9,15 @@ L1 = transliteration of `Space.{intersection,intersect,is_empty,is_included,volu
 * `rnd : Rat → Rat` is the float32 rounding of `Space.volume()` (the volumes only decide the ORDER
   in which EMSs are shown, `jnp.argsort(-ems_volumes)`; `Jx.roundF32` in the bridge).  Rewards and
   normalised observations are exact rationals (compared with the floats within tolerance).
-* `_update_ems` (delete intersected EMSs, add hyperplane intersections, filter by inclusion,
-  overwrite `argmin(ems_mask)`) is NOT transliterated: the successor EMS buffer is a draw
-  `d : EmsDraw` constrained by the decidable relation `EmsRel` ("every new active EMS is an old
-  active EMS that does not intersect the new item, or `hyperplane(item, axis, dir) ∩ e` for an old
-  active `e`").  Everything proved about `step` holds for every draw in the relation.
+* `_update_ems` / `_get_intersections_dict` / `_add_ems` exist in two forms.  The L1 transliteration
+  `updateEms` (delete intersected EMSs, the six families of hyperplane cuts, emptiness / inclusion
+  filtering, the scan writing to `argmin(ems_mask)`) gives the deterministic step `step₁`.  The
+  relational form: `step … (d : EmsDraw)` takes the successor EMS buffer as a draw constrained by the
+  decidable relation `EmsRel` ("every new active EMS is an old active EMS that does not intersect the
+  new item, or `hyperplane(item, axis, dir) ∩ e` for an old active `e`"); what is proved about it holds
+  for every draw in the relation, and `updateEms` is in the relation (UpdateEms.lean).
+* `RandomGenerator`'s splitting loop is transliterated as `splitGenerate` (list of active spaces, the
+  float32 cut arithmetic literal, random choices as `SplitDraw`s).
 
 L2 = the rules written from the docstrings / docs/environments/bin_pack.md: `legal`, `Feasible`
 (items inside the container and pairwise non-overlapping + the EMS invariant), `utilisation`,
@@ -281,6 +285,193 @@ def validDraw (s : State) (e i : Int) (d : EmsDraw) : Prop :=
 
 instance (s : State) (e i : Int) (d : EmsDraw) : Decidable (validDraw s e i d) := by
   unfold validDraw; infer_instance
+
+/-! ### L1: `_update_ems`, `_get_intersections_dict`, `_add_ems` (env.py)
+
+Transliteration of the code that maintains the EMS buffer when an item is packed.  All arrays have the
+length `n = max_num_ems` of the buffer.  The cuts `hyperplane(item, axis, dir) ∩ ems[k]` are float arrays in
+the code (the hyperplane has ±inf bounds) that are cast back to int32 when written into the buffer; they
+hold integers, exact below 2^24, and are modelled as integers. -/
+
+/-- `ems_mask_after_intersect = ~item_space.intersect(state.ems) & state.ems_mask` -/
+def maskAfterIntersect (it : Space) (ems : List Space) (mask : List Bool) : List Bool :=
+  List.zipWith (fun e m => !(it.intersect e) && m) ems mask
+
+/-- `intersections_ems_dict[dir] = item_space.hyperplane(axis, direction).intersection(state.ems)` -/
+def interEms (it : Space) (ems : List Space) (d : Dir) : List Space := ems.map (hyperInter it d)
+
+/-- the initial `intersections_mask_dict[dir]`:
+`state.ems_mask & ~inter.is_empty() & ~(inter.is_included(state.ems) & ems_mask_after_intersect)` -/
+def interMask0 (it : Space) (ems : List Space) (mask : List Bool) (d : Dir) : List Bool :=
+  List.zipWith (fun (em : Space × Bool) (mai : Bool) =>
+      em.2 && !(hyperInter it d em.1).isEmpty && !((hyperInter it d em.1).isIncluded em.1 && mai))
+    (ems.zip mask) (maskAfterIntersect it ems mask)
+
+/-- `to_remove` of one (direction, alternative direction) pair: entry `a` is set when some `b` (`b ≠ a` when the
+two directions are the same) has `dE[a] ⊆ aE[b]` under both masks and not `aE[b] ⊆ dE[a]` under both masks
+(`directions_included_in_alt_directions & ~alt_directions_included_in_directions.T`, `any` over `b`).  The two
+masks are tested first (both conjuncts of the code contain `dM[a] & aM[b]`, so the value is the same) -/
+def toRemove (same : Bool) (dE aE : List Space) (dM aM : List Bool) : List Bool :=
+  (dE.zip dM).zipIdx.map fun xa =>
+    xa.1.2 && (aE.zip aM).zipIdx.any fun yb =>
+      yb.1.2 &&
+      (let offDiag := !(same && xa.2 == yb.2)
+       let dInA := xa.1.1.isIncluded yb.1.1 && offDiag
+       let aInD := yb.1.1.isIncluded xa.1.1 && offDiag
+       dInA && !aInD)
+
+/-- `mask &= ~to_remove` -/
+def andNot (m r : List Bool) : List Bool := List.zipWith (fun a b => a && !b) m r
+
+/-- position of a direction in the dictionaries (`itertools.product("xyz", ["lower", "upper"])`) -/
+def Dir.idx : Dir → Nat
+  | .xLower => 0 | .xUpper => 1 | .yLower => 2 | .yUpper => 3 | .zLower => 4 | .zUpper => 5
+
+/-- the double loop of `_get_intersections_dict` over (direction, alternative direction); `M` is
+`intersections_mask_dict` as a list in dictionary order.  As in the Python, the mask of the outer direction used
+inside `to_remove` is the one read when the outer iteration starts (`direction_intersections_mask`), the mask of the
+alternative direction is the current dictionary entry, and the dictionary entry of the outer direction is updated
+after every inner iteration -/
+def filterMasks (I : Dir → List Space) (M0 : List (List Bool)) : List (List Bool) :=
+  Dir.all.foldl (fun M d =>
+    let dM := M.getD d.idx []
+    Dir.all.foldl (fun M a =>
+      let rm := toRemove (decide (d = a)) (I d) (I a) dM (M.getD a.idx [])
+      List.set M d.idx (andNot (M.getD d.idx []) rm)) M) M0
+
+/-- `add_one_ems` (the body of the scan in `_add_ems`): the candidate `c.1` with flag `c.2` is written to slot
+`argmin(ems_mask)` (the first inactive slot; slot 0 when all are active) unless it is included in an active
+EMS of the buffer -/
+def addOneEms (st : List Space × List Bool) (c : Space × Bool) : List Space × List Bool :=
+  if c.2 && !((List.zipWith (fun (e : Space) (m : Bool) => m && c.1.isIncluded e) st.1 st.2).any id) then
+    (List.set st.1 (Jx.argminBool st.2) c.1, List.set st.2 (Jx.argminBool st.2) true)
+  else st
+
+/-- the candidates in the order `_update_ems` feeds them to `_add_ems`: direction by direction (dictionary
+order), inside a direction by increasing slot number (`jax.lax.scan`) -/
+def emsCandidates (it : Space) (ems : List Space) (mask : List Bool) : List (Space × Bool) :=
+  let I := interEms it ems
+  let M := filterMasks I (Dir.all.map (interMask0 it ems mask))
+  Dir.all.flatMap (fun d => (I d).zip (M.getD d.idx []))
+
+/-- `_update_ems` on the buffer `(ems, mask)` for the new item space `it` -/
+def updateEmsCore (it : Space) (ems : List Space) (mask : List Bool) : EmsDraw :=
+  let r := (emsCandidates it ems mask).foldl addOneEms (ems, maskAfterIntersect it ems mask)
+  ⟨r.1, r.2⟩
+
+/-- `_update_ems(state, item_id)` as called by `_pack_item` for the action `(e, i)` -/
+def updateEms (s : State) (e i : Int) : EmsDraw := updateEmsCore (newItemSpace s e i) s.ems s.emsMask
+
+/-- the deterministic L1 step: `step` with the EMS update computed by the transliterated `_update_ems` -/
+def step₁ (cfg : Cfg) (rnd : Rat → Rat) (s : State) (e i : Int) : State × TimeStep Obs :=
+  step cfg rnd s e i (updateEms s e i)
+
+/-- the two halves of `b` cut at coordinate `p` of axis `ax` (0 = x, 1 = y, otherwise z) -/
+def cutLo (ax : Nat) (b : Space) (p : Int) : Space :=
+  match ax with | 0 => { b with x2 := p } | 1 => { b with y2 := p } | _ => { b with z2 := p }
+def cutHi (ax : Nat) (b : Space) (p : Int) : Space :=
+  match ax with | 0 => { b with x1 := p } | 1 => { b with y1 := p } | _ => { b with z1 := p }
+def axLo (ax : Nat) (b : Space) : Int := match ax with | 0 => b.x1 | 1 => b.y1 | _ => b.z1
+def axHi (ax : Nat) (b : Space) : Int := match ax with | 0 => b.x2 | 1 => b.y2 | _ => b.z2
+
+/-! ### L1: `RandomGenerator._split_container_into_items_spaces`, `_split_along_axis`, `_split_item_once`,
+`_split_item_multiple_times` (generator.py)
+
+The generator keeps a buffer of `max_num_items` spaces with a mask; here the state is the LIST of the spaces whose
+mask is set (the slot bookkeeping — `argmin(items_mask)` as free slot, copying the coordinates of the split space to
+it — is abstracted: the order of a tiling is irrelevant, `tiles_perm`).  What is transliterated literally is the
+arithmetic that decides WHERE the cuts are: the float32 expressions `self._split_eps * axis_len`,
+`axis_len / num_split`, `i * axis_len / num_split`, `(i + 1) * axis_len / num_split` in the order the code evaluates
+them (int32 → float32 conversion of each operand, one rounding per operation, `jnp.array(·, jnp.int32)` truncating
+towards zero), with `rnd` the float32 rounding.  The random choices of one iteration of the `while_loop` are a
+`SplitDraw`. -/
+
+structure GenCfg where
+  /-- `max_num_items` -/
+  maxItems : Nat
+  /-- `_split_num_same_items` -/
+  splitNum : Nat
+  /-- `_split_eps` -/
+  eps : Rat
+  deriving Repr, DecidableEq
+
+structure SplitDraw where
+  /-- `jax.random.randint(axis_key, (), 0, 3)` -/
+  axis : Nat
+  /-- `item_id = jax.random.choice(…, p = where(items_mask, item_length, 0))`, as a position in the list of active spaces -/
+  item : Nat
+  /-- `jax.random.uniform(mode_key) < prob_split_one_item` -/
+  once : Bool
+  /-- `axis_split = jax.random.randint(split_key, (), axis_min, axis_max)` (used when `once`) -/
+  split : Int
+  /-- `num_split = jax.random.randint(split_key, (), 1, split_num_same_items + 1)` (used otherwise) -/
+  num : Nat
+  deriving Repr, DecidableEq
+
+/-- `jnp.array(x, jnp.int32)` of a float: truncation towards zero -/
+def truncI (q : Rat) : Int := if 0 ≤ q then q.floor else -((-q).floor)
+
+/-- the box `b` with its extent on axis `ax` replaced by `[lo, hi]` (`coord.at[free_index].set(coord[item_id])`
+followed by the two assignments on the axis) -/
+def setAx (ax : Nat) (b : Space) (lo hi : Int) : Space := cutLo ax (cutHi ax b lo) hi
+
+/-- `initial_item_axis_1 + jnp.array(j * axis_len / num_split, jnp.int32)`: int32 product, both operands converted
+to float32, float32 division, truncation -/
+def splitCut (rnd : Rat → Rat) (a1 len : Int) (k j : Nat) : Int :=
+  a1 + truncI (rnd (rnd (((j : Int) * len : Int) : Rat) / rnd (((k : Nat) : Int) : Rat)))
+
+/-- `jnp.array(self._split_eps * axis_len, jnp.int32)` -/
+def splitPad (rnd : Rat → Rat) (eps : Rat) (len : Int) : Int := truncI (rnd (rnd eps * rnd (len : Rat)))
+
+/-- consecutive pieces of `b` on axis `ax`: `[lo, q₁], [q₁, q₂], …` -/
+def piecesFrom (ax : Nat) (b : Space) (lo : Int) : List Int → List Space
+  | [] => []
+  | q :: qs => setAx ax b lo q :: piecesFrom ax b q qs
+
+/-- the spaces that replace `b`: `_split_item_once` gives `[a1, split]` and `[split, a2]`;
+`_split_item_multiple_times` gives `[a1, cut 1], [cut 1, cut 2], …, [cut (k-1), cut k]` -/
+def splitPieces (rnd : Rat → Rat) (b : Space) (d : SplitDraw) : List Space :=
+  let a1 := axLo d.axis b
+  let len := axHi d.axis b - a1
+  if d.once then [cutLo d.axis b d.split, cutHi d.axis b d.split]
+  else piecesFrom d.axis b a1 ((List.range d.num).map (fun j => splitCut rnd a1 len d.num (j + 1)))
+
+/-- what the samplers can return: an active space; `randint(axis_min, axis_max)` lies in `[axis_min, axis_max)` and
+is `axis_min` when the interval is empty; `randint(1, split_num_same_items + 1)` -/
+def validSplitDraw (g : GenCfg) (rnd : Rat → Rat) (bs : List Space) (d : SplitDraw) : Prop :=
+  d.item < bs.length ∧
+  (let b := bs.getD d.item default
+   let a1 := axLo d.axis b
+   let a2 := axHi d.axis b
+   let pad := splitPad rnd g.eps (a2 - a1)
+   if d.once then (if a1 + pad < a2 - pad then a1 + pad ≤ d.split ∧ d.split < a2 - pad else d.split = a1 + pad)
+   else 1 ≤ d.num ∧ d.num ≤ g.splitNum)
+
+instance (g : GenCfg) (rnd : Rat → Rat) (bs : List Space) (d : SplitDraw) : Decidable (validSplitDraw g rnd bs d) := by
+  unfold validSplitDraw; infer_instance
+
+/-- one iteration of the `while_loop` (`_split_space_into_sub_spaces`): replace the chosen space by its pieces, then
+`items_mask &= ~items_spaces.is_empty()` -/
+def splitStep (rnd : Rat → Rat) (bs : List Space) (d : SplitDraw) : List Space :=
+  (bs.take d.item ++ splitPieces rnd (bs.getD d.item default) d ++ bs.drop (d.item + 1)).filter (fun b => !b.isEmpty)
+
+/-- `cond_fun`: `num_placed_items < max_num_items - split_num_same_items + 1` -/
+def splitCond (g : GenCfg) (bs : List Space) : Bool :=
+  decide ((bs.length : Int) < (g.maxItems : Int) - (g.splitNum : Int) + 1)
+
+/-- the `while_loop`, one draw per iteration (it stops when `cond_fun` fails or the draws are used up) -/
+def splitLoop (g : GenCfg) (rnd : Rat → Rat) : List Space → List SplitDraw → List Space
+  | bs, [] => bs
+  | bs, d :: ds => if splitCond g bs then splitLoop g rnd (splitStep rnd bs d) ds else bs
+
+/-- `_split_container_into_items_spaces(container, key)`: the item spaces of the generated instance -/
+def splitGenerate (g : GenCfg) (rnd : Rat → Rat) (c : Space) (ds : List SplitDraw) : List Space :=
+  splitLoop g rnd [c] ds
+
+/-- every draw is admissible when its turn comes -/
+def ValidSplitDraws (g : GenCfg) (rnd : Rat → Rat) : List Space → List SplitDraw → Prop
+  | _, [] => True
+  | bs, d :: ds => splitCond g bs = true → (validSplitDraw g rnd bs d ∧ ValidSplitDraws g rnd (splitStep rnd bs d) ds)
 
 /-! ### L2: the rules -/
 
